@@ -9,6 +9,16 @@ import oracle_solver as O
 
 def gen_linear(rng):
     sc = scen.gen_chain(rng, worm=False, max_stages=3, currents=rng.random() < 0.7)
+    if rng.random() < 0.2:                   # a mating of two gears with the same number of teeth: ratio exactly 1, efficiency below 1
+        for prev, e in zip(sc['elems'], sc['elems'][1:]):
+            if e['link'] == 'gear' and 'z' in prev:
+                e['z'] = prev['z']
+                break
+    return linear_from_chain(rng, sc)
+
+
+def linear_from_chain(rng, sc):
+    """a linear experiment (constant duty cycle, constant load, never held) on the chain of scenario sc"""
     m = O.motor_si(sc)
     st, _ = O.expected_static(sc)
     D = rng.choice([1, 1, 0.8, 0.6, -0.6, -1, -0.8])
@@ -92,17 +102,29 @@ def check(sc, info):
     return out
 
 
-def search(tier, seed, escalate):
+def search(tier, seed, escalate, hints=None):
+    import copy
     rng = random.Random(seed * 271 + 9)
     n = (12 if tier == 'quick' else 220) * (3 if escalate else 1)
     out, k = [], 0
-    for _ in range(n * 3):
-        g = gen_linear(rng)
+    # the chains of the scenarios on which the model and the code disagree come first (two experiments each)
+    todo = []
+    for h in hints or []:
+        hs = h.get('scenario') if isinstance(h, dict) else None
+        if hs and not any(e['kind'] in ('worm', 'wheel') for e in hs['elems']) and len(todo) < 16:
+            for _ in range(2):
+                c = copy.deepcopy({k_: hs[k_] for k_ in ('motor', 'elems', 'load', 'pos0', 'spd0')})
+                for op in hs.get('ops', []):
+                    if op[0] == 'seteff':
+                        c['elems'][op[1]]['eff'] = op[2]
+                todo.append(c)
+    for i in range(n * 3 + len(todo)):
+        g = linear_from_chain(rng, todo[i]) if i < len(todo) else gen_linear(rng)
         if g is None:
             continue
         sc, info = g
         k += 1
         out += check(sc, info)
-        if k >= n or len(out) >= 5:
+        if k >= n + len(todo) or len(out) >= 5:
             break
     return out, k * 3
